@@ -94,11 +94,13 @@ class Inst:
     """One ansatz configuration.  make() returns a NEW, unbuilt object (ops: ADAPT operator indices)."""
 
     def __init__(self, name, family, variant, make, zero_ref=False, unit_cands=None, tier="quick", weight=1.0,
-                 adapt=False, pool=None, ring=False, big=False, occ=None, reftype=False):
+                 adapt=False, pool=None, ring=False, big=False, occ=None, reftype=False, enc=None):
         self.name, self.family, self.variant, self._make = name, family, variant, make
         self.zero_ref, self.tier, self.weight = zero_ref, tier, weight
         self.unit_cands = unit_cands or [PI / 2, PI, 2 * PI, 4 * PI, 8 * PI]
         self.adapt, self.pool, self.ring, self.big = adapt, pool, ring, big
+        self.enc = enc            # (molecule name, mapping, up_then_down) of the instance DEFINITION: reference circuit from the library
+        self._libref = {}
         self.reftype = reftype    # ansatz with code paths that depend on the reference type (RHF / ROHF / UHF, spin)
         self.occ = occ            # ("jw", molecule name, up_then_down) | ("jw4",) | ("hcb", molecule name): independent HF occupation
         self._units = {}
@@ -108,6 +110,19 @@ class Inst:
     def make(self, ops=None):
         with quiet():
             return self._make(ops) if self.adapt else self._make()
+
+    def library_reference(self, M):
+        """Reference circuit from get_reference_circuit (validated by C05) for the molecule / encoding of the instance
+        definition - not taken from the ansatz object, whose prepare_reference_state may forward the wrong options."""
+        if self.enc is None:
+            return None
+        if M not in self._libref:
+            from tangelo.toolboxes.qubit_mappings.statevector_mapping import get_reference_circuit
+            m = mol(self.enc[0])
+            c = get_reference_circuit(n_spinorbitals=m.n_active_sos, n_electrons=m.n_active_electrons, mapping=self.enc[1],
+                                      up_then_down=self.enc[2], spin=m.active_spin)
+            self._libref[M] = (circuit_json(c, M), c.width)
+        return self._libref[M]
 
     def occ_record(self):
         """Parameters of the Hartree-Fock occupation for C07Defs!OccBit (taken from the molecule, not from the ansatz)."""
@@ -501,6 +516,10 @@ def replay_history(inst, H, mode, smap_kind, rng, book, out, hid, smap_override=
             if rj is not None:
                 key = book.add(M, {"kind": "ref", "n": max(n, ref.width), "a": uj, "b": rj}, None)
                 ev("job", si, jkey=key, jkind="ref", action=a)
+            lib = inst.library_reference(M)
+            if lib is not None and lib[0] is not None:
+                key = book.add(M, {"kind": "ref", "n": max(n, lib[1]), "a": uj, "b": lib[0]}, None)
+                ev("job", si, jkey=key, jkind="reflib", action=a)
             occ = inst.occ_record()
             if occ is not None and mode == "clifford":
                 key = book.add(M, {"kind": "refocc", "n": max(n, occ["nso"]), "a": uj, "occ": occ}, None)
@@ -510,7 +529,8 @@ def replay_history(inst, H, mode, smap_kind, rng, book, out, hid, smap_override=
 # ------------------------------------------------------------------------------------------------------------
 # instance registry
 # ------------------------------------------------------------------------------------------------------------
-def _qcc_like(cls_name, molname, mapping, utd, gens_kw):
+def _qcc_like(cls_name, molname, mapping, utd, gens_kw, user_qmf=False):
+    """user_qmf: the QMF state circuit is passed by the user (qmf_circuit=...) and holds variational RX / RZ gates."""
     cache = {}
 
     def mk():
@@ -521,11 +541,21 @@ def _qcc_like(cls_name, molname, mapping, utd, gens_kw):
             a = cls(m, mapping=mapping, up_then_down=utd)
             cache["gens"] = list(a.dis if cls_name == "QCC" else a.acs)
             cache["ham"] = a.qubit_ham
-        return cls(m, mapping=mapping, up_then_down=utd, qubit_ham=cache["ham"], **{gens_kw: list(cache["gens"])})
+        kw = {gens_kw: list(cache["gens"])}
+        if user_qmf:
+            from tangelo.toolboxes.ansatz_generator._qubit_mf import get_qmf_circuit, init_qmf_from_hf
+            from tangelo.toolboxes.qubit_mappings.mapping_transform import get_qubit_number
+            nq = get_qubit_number(mapping, m.n_active_sos)
+            prm = np.array(init_qmf_from_hf(m.n_active_sos, m.n_active_electrons, mapping, utd, m.active_spin), dtype=float)
+            prm[nq:] = [(PI / 2) * (1 + j % 3) for j in range(nq)]       # RZ phases on the pi/2 grid
+            kw["qmf_circuit"] = get_qmf_circuit(prm, True)                # a new circuit object for every ansatz object
+        return cls(m, mapping=mapping, up_then_down=utd, qubit_ham=cache["ham"], **kw)
     return mk
 
 
-def _vsqs(order, nav, intervals):
+def _vsqs(order, nav, intervals, varref=False):
+    """varref: the user's reference circuit itself holds variational / parameterised gates (they are not VSQS parameters:
+    updates must leave them alone)."""
     def mk():
         from tangelo.toolboxes.ansatz_generator import VSQS
         from tangelo.toolboxes.operators import QubitOperator
@@ -535,6 +565,10 @@ def _vsqs(order, nav, intervals):
         h_fin = QubitOperator("X0 X1", h) + QubitOperator("Y1 Y2", -h) + QubitOperator("Z0 Z2", h) + QubitOperator("X2", 3 * h) + QubitOperator((), 0.5)
         h_nav = (QubitOperator("Y0", h) + QubitOperator("X1 Z2", -h)) if nav else None
         ref = Circuit([Gate("X", 0), Gate("X", 2)], n_qubits=3)
+        if varref:
+            ref = Circuit([Gate("X", 0), Gate("RY", 1, parameter=PI / 2, is_variational=True), Gate("X", 2),
+                           Gate("RZ", 1, parameter=-PI / 2, is_variational=True), Gate("RX", 0, parameter=PI / 2),
+                           Gate("CNOT", 2, 1), Gate("RY", 2, parameter=PI, is_variational=True)], n_qubits=3)
         return VSQS(qubit_hamiltonian=h_fin, h_init=h_init, reference_state=ref, h_nav=h_nav, intervals=intervals,
                     time=float(intervals), trotter_order=order)
     return mk
@@ -602,6 +636,8 @@ def instances():
         if family in ("UCCSD", "UpCCGSD", "UCCGD") and re.search(r"/(jw|bk|scbk|jkmn)/1", name):
             variant = (variant + "/utd") if variant != "-" else "utd"
         parts = name.split("/")
+        if family in ("UCCSD", "UpCCGSD", "UCCGD") and len(parts) >= 4 and parts[2] in ("jw", "bk", "scbk", "jkmn"):
+            kw.setdefault("enc", (parts[1], parts[2], parts[3] == "1"))
         if family in ("UCCSD", "UpCCGSD", "UCCGD") and len(parts) >= 4 and parts[2] == "jw":
             kw.setdefault("occ", ("jw", parts[1], parts[3] == "1"))
         elif family == "RUCC":
@@ -631,6 +667,10 @@ def instances():
     add("UCCSD/H2_anion/jw/0", "UCCSD", "open", lambda: UCCSD(mol("H2_anion")), zero_ref=True, ring="quick", reftype=True, weight=0.5)
     add("UCCSD/H2_cation_uhf/jw/0", "UCCSD", "uhf-open", lambda: UCCSD(mol("H2_cation_uhf")), zero_ref=True, ring="quick", reftype=True, weight=0.5)
     add("UCCSD/H2_anion_uhf/jw/0", "UCCSD", "uhf-open", lambda: UCCSD(mol("H2_anion_uhf")), zero_ref=True, ring="quick", reftype=True, weight=0.5)
+    add("UCCSD/H2_cation/jw/1", "UCCSD", "open", lambda: UCCSD(mol("H2_cation"), up_then_down=True), zero_ref=True, ring=True, reftype=True, weight=0.3)
+    add("UCCSD/H2_anion_uhf/jw/1", "UCCSD", "uhf-open", lambda: UCCSD(mol("H2_anion_uhf"), up_then_down=True), zero_ref=True, ring=True, reftype=True, weight=0.3)
+    add("UCCSD/H2_triplet/jw/0", "UCCSD", "open", lambda: UCCSD(mol("H2_triplet")), zero_ref=True, reftype=True, weight=0.3)
+    add("UCCSD/H4_cation/jw/1", "UCCSD", "open", lambda: UCCSD(mol("H4_cation"), up_then_down=True), zero_ref=True, big=True, tier="thorough", weight=0.15)
     add("UCCSD/H2_anion_uhf/bk/1", "UCCSD", "uhf-open", lambda: UCCSD(mol("H2_anion_uhf"), mapping="bk", up_then_down=True), zero_ref=True, ring=True,
         reftype=True, tier="thorough")
     add("UCCSD/H4_cation_uhf/jw/0", "UCCSD", "uhf-open", lambda: UCCSD(mol("H4_cation_uhf")), zero_ref=True, big=True, tier="thorough", weight=0.15)
@@ -650,14 +690,24 @@ def instances():
     add("UpCCGSD/H2/jkmn/0/k2", "UpCCGSD", "k<=2", lambda: UpCCGSD(mol("H2"), mapping="jkmn", k=2), zero_ref=True, ring=True, tier="thorough")
     add("UpCCGSD/H2/scbk/1/k2", "UpCCGSD", "k<=2", lambda: UpCCGSD(mol("H2"), mapping="scbk", up_then_down=True, k=2), zero_ref=True, ring=True, tier="thorough")
     add("UpCCGSD/H4_3mo/jw/0/k2", "UpCCGSD", "k<=2", lambda: UpCCGSD(mol("H4_3mo"), k=2), zero_ref=True, weight=0.5, tier="thorough")
-    add("UpCCGSD/H2_cation/jw/0/k2", "UpCCGSD", "k<=2", lambda: UpCCGSD(mol("H2_cation"), k=2), zero_ref=True, ring=True, tier="thorough")
+    add("UpCCGSD/H2_cation/jw/0/k2", "UpCCGSD", "k<=2", lambda: UpCCGSD(mol("H2_cation"), k=2), zero_ref=True, ring=True, weight=0.3)
+    add("UpCCGSD/H2_cation/jw/1/k2", "UpCCGSD", "k<=2", lambda: UpCCGSD(mol("H2_cation"), up_then_down=True, k=2), zero_ref=True, ring=True, weight=0.3)
+    # triplet: the default occupation of get_reference_circuit (spin=None) differs from the requested one
+    add("UpCCGSD/H2_triplet/jw/0/k2", "UpCCGSD", "k<=2", lambda: UpCCGSD(mol("H2_triplet"), k=2), zero_ref=True, ring=True, weight=0.3)
+    add("UpCCGSD/H2_triplet/bk/1/k2", "UpCCGSD", "k<=2", lambda: UpCCGSD(mol("H2_triplet"), mapping="bk", up_then_down=True, k=2), zero_ref=True, tier="thorough", weight=0.3)
+    add("UpCCGSD/H2/jw/1/k2", "UpCCGSD", "k<=2", lambda: UpCCGSD(mol("H2"), up_then_down=True, k=2), zero_ref=True, ring=True, weight=0.5)
+    add("UpCCGSD/H2/jw/1/k3", "UpCCGSD", "k>=3", lambda: UpCCGSD(mol("H2"), up_then_down=True, k=3), zero_ref=True, ring=True, tier="thorough")
+    add("UpCCGSD/H4/jw/1/k2", "UpCCGSD", "k<=2", lambda: UpCCGSD(mol("H4"), up_then_down=True, k=2), zero_ref=True, big=True, tier="thorough", weight=0.15)
     add("UpCCGSD/H4_cation/jw/0/k2", "UpCCGSD", "k<=2", lambda: UpCCGSD(mol("H4_cation"), k=2), zero_ref=True, big=True, tier="thorough", weight=0.15)
     # ---- UCCGD -------------------------------------------------------------------------------------------
-    add("UCCGD/H2_cation/jw/0", "UCCGD", "-", lambda: UCCGD(mol("H2_cation")), zero_ref=True, ring=True, tier="thorough")
+    add("UCCGD/H2_cation/jw/0", "UCCGD", "-", lambda: UCCGD(mol("H2_cation")), zero_ref=True, ring=True, weight=0.3)
+    add("UCCGD/H2_cation/jw/1", "UCCGD", "-", lambda: UCCGD(mol("H2_cation"), up_then_down=True), zero_ref=True, ring=True, weight=0.3)
+    add("UCCGD/H2_triplet/jw/1", "UCCGD", "-", lambda: UCCGD(mol("H2_triplet"), up_then_down=True), zero_ref=True, ring=True, weight=0.3)
+    add("UCCGD/H4_3mo/jw/1", "UCCGD", "-", lambda: UCCGD(mol("H4_3mo"), up_then_down=True), zero_ref=True, weight=0.4, tier="thorough")
     for mp, utd in enc[:4]:
         add("UCCGD/H2/%s/%d" % (mp, utd), "UCCGD", "-", (lambda mp=mp, utd=utd: UCCGD(mol("H2"), mapping=mp, up_then_down=utd)),
             zero_ref=True, ring="quick" if (mp, utd) == ("jw", False) else True,
-            tier="quick" if (mp, utd) in (("jw", False), ("bk", True)) else "thorough")
+            tier="quick" if (mp, utd) in (("jw", False), ("jw", True), ("bk", True)) else "thorough", weight=0.6 if utd else 1.0)
     add("UCCGD/H4_3mo/jw/0", "UCCGD", "-", lambda: UCCGD(mol("H4_3mo")), zero_ref=True, weight=0.5, tier="thorough")
     add("UCCGD/H4/jw/0", "UCCGD", "-", lambda: UCCGD(mol("H4")), zero_ref=True, big=True, tier="thorough", weight=0.15)
     # ---- HEA ---------------------------------------------------------------------------------------------
@@ -680,6 +730,10 @@ def instances():
     add("QCC/H4/bk", "QCC", "-", _qcc_like("QCC", "H4", "bk", True, "dis"), weight=0.5, tier="thorough")
     add("QCC/H4/scbk", "QCC", "-", _qcc_like("QCC", "H4", "scbk", True, "dis"), weight=0.5, tier="thorough")
     add("ILC/H2/jw", "ILC", "-", _qcc_like("ILC", "H2", "jw", True, "acs"), ring=True)
+    add("QCC/H4/jw/userqmf", "QCC", "userqmf", _qcc_like("QCC", "H4", "jw", True, "dis", user_qmf=True), weight=0.4)
+    add("QCC/H2/jw/userqmf", "QCC", "userqmf", _qcc_like("QCC", "H2", "jw", True, "dis", user_qmf=True), weight=0.5, tier="thorough")
+    add("ILC/H4/jw/userqmf", "ILC", "userqmf", _qcc_like("ILC", "H4", "jw", True, "acs", user_qmf=True), weight=0.4)
+    add("ILC/H2/bk/userqmf", "ILC", "userqmf", _qcc_like("ILC", "H2", "bk", True, "acs", user_qmf=True), weight=0.5, tier="thorough")
     add("ILC/H4/jw", "ILC", "-", _qcc_like("ILC", "H4", "jw", True, "acs"), weight=0.5)
     add("ILC/H4/bk", "ILC", "-", _qcc_like("ILC", "H4", "bk", True, "acs"), weight=0.5, tier="thorough")
     # ---- VSQS --------------------------------------------------------------------------------------------
@@ -688,6 +742,10 @@ def instances():
             for iv in (2, 3):
                 add("VSQS/grid/o%d/nav%d/i%d" % (order, nav, iv), "VSQS", "-", _vsqs(order, nav, iv), ring=(iv == 2),
                     unit_cands=[0.5, 1., 2., 4., 8.], tier="quick" if (iv == 3 or (order == 2 and nav)) else "thorough")
+    for order, nav, iv, tier in ((1, False, 3, "quick"), (2, True, 3, "quick"), (2, True, 2, "quick"), (1, True, 3, "thorough"), (2, False, 3, "thorough"),
+                                 (1, False, 2, "thorough")):
+        add("VSQS/varref/o%d/nav%d/i%d" % (order, nav, iv), "VSQS", "varref", _vsqs(order, nav, iv, varref=True), ring=(iv == 2 and tier == "thorough"),
+            unit_cands=[0.5, 1., 2., 4., 8.], tier=tier, weight=0.7)
     from tangelo.toolboxes.ansatz_generator import VSQS
     add("VSQS/H2/jw", "VSQS", "-", lambda: VSQS(mol("H2"), intervals=3), unit_cands=[1.], weight=0.3)
     # ---- pUCCD -------------------------------------------------------------------------------------------
@@ -704,7 +762,7 @@ def instances():
                                             ("ADAPT/H2_cation/jw/0", "H2_cation", "jw", False, "thorough", False),
                                             ("ADAPT/H4/jw/0", "H4", "jw", False, "thorough", True)):
         mk, pool = _adapt(molname, mp, utd)
-        inst = Inst(nm, "ADAPT", "-", mk, zero_ref=True, adapt=True, occ=(("jw", molname, utd) if mp == "jw" else None), ring=("quick" if nm == "ADAPT/H2/jw/0" else not big), big=big, tier=tier, weight=0.5 if big else 1.0)
+        inst = Inst(nm, "ADAPT", "-", mk, zero_ref=True, adapt=True, occ=(("jw", molname, utd) if mp == "jw" else None), enc=(molname, mp, utd), ring=("quick" if nm == "ADAPT/H2/jw/0" else not big), big=big, tier=tier, weight=0.5 if big else 1.0)
         inst._pool_fn = pool
         L.append(inst)
     return L
@@ -917,6 +975,13 @@ def plan_for(inst, pools, chk, rng):
     kinds = ["mod", "block", "rand"]
     for i in pair_cover(p1, rng, n1):
         plan.append((p1[i], "clifford", um("mod")))
+    if inst.zero_ref:
+        # the reference-state clause needs theta = 0 reached by a build and by an update, whatever the sample
+        zb = [b for b in p1 if b.sig[0][:2] == ("Build", (0,))]
+        zu = [b for b in p1 if b.sig[0][0] == "Build" and b.sig[0][1] != (0,) and any(act == "Update" and sym == (0,) for act, sym, _ in b.sig[1:])]
+        for src in (zb, zu):
+            if src:
+                plan.append((src[rng.randrange(len(src))], "clifford", "mod"))
     if not q:
         for b in rng.sample(p1, min(len(p1), int(200 * w))):
             plan.append((b, "clifford", um("mod")))
@@ -1133,11 +1198,14 @@ def process(chk, outs, verdicts, report=True, pools=None, book=None):
                     chk.spec_drift("%s: a recorded gate is outside the gate set of spec/Gates.tla (sample not judged)" % e["inst"])
                     chk.inconclusive += 1
                     continue
-                kind = {"equiv": "update-differs", "ref": "zero-not-reference", "refocc": "zero-not-reference", "same": "bad-changed-state"}[e["jkind"]]
+                kind = {"equiv": "update-differs", "ref": "zero-not-reference", "reflib": "zero-not-reference", "refocc": "zero-not-reference",
+                        "same": "bad-changed-state"}[e["jkind"]]
                 if kind == "update-differs" and book is not None:
                     kind += "/" + difference_tag(book, e["jkey"])
                 detail = {"equiv": "Sem(circuit after %s) != Sem(fresh object built with the same parameters)" % e.get("action"),
                           "ref": "all-zero parameters do not prepare the reference state",
+                          "reflib": "all-zero parameters do not prepare the reference state of the molecule in this encoding/ordering "
+                                    "(get_reference_circuit called with the options of the instance definition)",
                           "refocc": "all-zero parameters do not prepare the Hartree-Fock determinant (occupation from the molecule)",
                           "same": "a rejected call changed the circuit"}[e["jkind"]] + " [TLC verdict: %s]" % v
                 e = dict(e, kind=kind, what="circuit")
